@@ -59,8 +59,28 @@ def e1(cx):
             res.append(Finding(ID, 'E1', label, False, 'analysis incomplete: %r' % (g.incomplete,), fn['span']))
             continue
 
+        down_vals = {strip(x['value']) for x in g.nodes if x['kind'] == 'call' and down_method(x) == 'is_finished'}
+
         def step(st, n, lab):
             k = n['kind']
+            # the downstream's own answer is branched on (`down.is_finished() || something_else`)
+            d0, v0 = sw_value(lab)
+            if d0 is not None and v0 in (0, 1) and st in ('down', 'down_f'):
+                dd0 = strip(d0)
+                neg0 = 0
+                while dd0[0] == 'un' and dd0[1] == 'Not':
+                    dd0 = strip(dd0[2])
+                    neg0 ^= 1
+                if dd0 in down_vals:
+                    st = 'down' if (v0 ^ neg0) == 1 else 'down_f'
+            if st == 'down_f' and k == 'assign' and not n['ctx'] and n['lhs'][0] == 'local' and n['lhs'][1] == 0:
+                b0 = const_bool(n['rhs'])
+                if b0 is False:
+                    return 'down'
+                if strip(n['rhs']) not in down_vals:
+                    return 'extra'
+            if st == 'extra':
+                return st
             if k == 'call':
                 m = down_method(n)
                 if m == 'is_finished':
@@ -96,7 +116,7 @@ def e1(cx):
             return st
 
         reached, pred = explore(g, 'none', step)
-        bad = [(nid, st) for nid, st in ret_states(g, reached) if st not in ('down', 'empty_true')]
+        bad = [(nid, st) for nid, st in ret_states(g, reached) if st not in ('down', 'down_f', 'empty_true')]
         if bad:
             nid, st = bad[0]
             rets0 = [x['rhs'] for x in g.nodes if x['kind'] == 'assign' and not x['ctx'] and x['lhs'][0] == 'local' and x['lhs'][1] == 0]
@@ -105,6 +125,7 @@ def e1(cx):
             msg = {'none': 'answers only whether its own slot is empty and never asks the downstream observer: a downstream that finished early (take, first, ...) is not reported upstream' if slot_only else 'a path returns without asking the downstream observer',
                    'const_false': 'returns the constant false: producers upstream of this observer never learn that the stream ended',
                    'const_true': 'returns the constant true on a path where the downstream slot is not known to be empty',
+                   'extra': 'answers from something else than the downstream observer on a path where the downstream said it is not finished (`down.is_finished() || own_condition`): the operator reports finished while its downstream is alive',
                    'empty': 'empty-slot path does not answer true',
                    'empty_false': 'empty-slot path answers false (a finished stream looks alive)'}.get(st, st)
             res.append(Finding(ID, 'E1', label, False, msg, fn['span'], witness(g, pred, (nid, st), interesting_default)))
@@ -293,33 +314,54 @@ def e3(cx):
         if 'RepeatTask' not in im['self_s']:
             continue
         fn = F.impl_fn(im, 'poll')
-        g = cx.graph(fn['key'])
+        g = cx.graph(fn['key'], forward=True)      # the answer may travel through a private helper (`run_tick() -> bool`)
         label = cx.label(fn)
         found += 1
-        task_calls = [n for n in g.nodes if n['kind'] == 'call' and n['name'] == '<fnptr>' and not n['ctx']]
+        task_calls = [n for n in g.nodes if n['kind'] == 'call' and n['name'] == '<fnptr>']
         if len(task_calls) != 1:
             res.append(Finding(ID, 'E3', label, False, 'expected exactly one call of the task fn pointer, found %d' % len(task_calls), fn['span']))
             continue
         tc = task_calls[0]
-        sw = [n for n in g.nodes if n['kind'] == 'switch' and mentions(n['discr'], lambda x: x == tc['value'])]
-        if not sw:
+        tv = strip(tc['value'])
+
+        def answer(lab):
+            """0/1 when this edge is a branch on the task's answer (None otherwise)"""
+            d, v = sw_value(lab)
+            if d is None or v not in (0, 1):
+                return None
+            dd = strip(d)
+            neg = 0
+            while dd[0] == 'un' and dd[1] == 'Not':
+                dd = strip(dd[2])
+                neg ^= 1
+            return (v ^ neg) if dd == tv else None
+        if not any(answer(l) is not None for n in g.nodes for m, k, l in g.succs(n['id'])):
             res.append(Finding(ID, 'E3', label, False, 'the task result is not branched on', g.loc(tc)))
             continue
-        ok = True
+
+        def step(st, nd, lab):
+            if st == 'BAD':
+                return None
+            a = answer(lab)
+            if a is not None:
+                if st in (0, 1) and st != a:
+                    return None           # the same answer was already branched on the other way (helper + caller)
+                st = a
+            if nd is tc:
+                return 'asked' if st != 0 else 'BAD'
+            if st == 0 and nd['kind'] in ('call', 'enter') and nd['name'].endswith('new_timer'):
+                return 'BAD'
+            return st
+        reached, pred = explore(g, 'start', step)
+        bad = [k for k in reached if k[1] == 'BAD']
+        declined_returns = any(k[1] == 0 for k in ret_states(g, reached))
+        ok = not bad and declined_returns
         msg = 'declining task ends the future without re-arming'
-        for s in sw:
-            for m, k, lab in g.succs(s['id']):
-                d, v = sw_value(lab)
-                if v == 0:  # false
-                    seen = reachable(g, [m])
-                    rearm = [g.nodes[x] for x in seen if g.nodes[x]['kind'] in ('call', 'enter') and not g.nodes[x]['ctx'] and (g.nodes[x]['name'].endswith('new_timer') or g.nodes[x]['name'] == '<fnptr>')]
-                    if rearm:
-                        ok = False
-                        msg = 'after the task declined (false) the timer is re-armed / the task may run again: %s' % node_desc(g, rearm[0])
-                    if not any(x in g.rets for x in seen):
-                        ok = False
-                        msg = 'declining branch does not return'
-        res.append(Finding(ID, 'E3', label, ok, msg, fn['span']))
+        if bad:
+            msg = 'after the task declined (false) the timer is re-armed / the task may run again'
+        elif not declined_returns:
+            msg = 'declining branch does not return'
+        res.append(Finding(ID, 'E3', label, ok, msg, fn['span'], witness(g, pred, bad[0], interesting_default) if bad else None))
     if found == 0 and not cx.control:
         res.append(Finding(ID, 'E3', 'floor', False, 'RepeatTask::poll not found'))
     return res
